@@ -80,9 +80,12 @@ def make_copy(sd):
     return d
 
 
+TIER = 'quick'
+
+
 def run_check(prop, repo, budget, seed=None, replay=None):
     env = dict(os.environ, VERIF_REPO=repo)
-    cmd = [os.path.join(VERIF, 'check'), prop, '--tier', 'quick', '--no-evidence']
+    cmd = [os.path.join(VERIF, 'check'), prop, '--tier', TIER, '--no-evidence']
     if replay:
         cmd += ['--replay', replay]
     else:
@@ -138,7 +141,10 @@ def main():
     ap.add_argument('--checks', default='')
     ap.add_argument('--budget', type=float, default=60)
     ap.add_argument('--seeds', default='20261002,1')
+    ap.add_argument('--tier', default='quick')
     a = ap.parse_args()
+    global TIER
+    TIER = a.tier
     sd = os.path.join(VERIF, 'seeded', a.id)
     mp = os.path.join(sd, 'meta.json')
     meta = json.load(open(mp)) if os.path.exists(mp) else {'id': a.id}
@@ -147,7 +153,10 @@ def main():
         print(a.id, 'confirm:', {k: v for k, v in meta['confirmed'].items() if not k.endswith('tail')}, flush=True)
     if 'detect' in a.actions:
         checks = [c for c in (a.checks or meta.get('breaks') or '').split(',') if c]
-        meta.setdefault('detection', {}).update(detect(sd, meta, checks, a.budget, [int(s) for s in a.seeds.split(',')]))
+        res = detect(sd, meta, checks, a.budget, [int(s) for s in a.seeds.split(',')])
+        if a.tier != 'quick':
+            res = {f'{k}@{a.tier}': v for k, v in res.items()}
+        meta.setdefault('detection', {}).update(res)
     with open(mp, 'w') as fh:
         json.dump(meta, fh, indent=1)
     return 0
